@@ -83,7 +83,7 @@ class C15(Check):
             "and is followed by an observation. non-trivial = a reorganisation (online or offline) that replaces a block "
             "holding a wallet transaction; distinct by input")
     N_QUICK = 260
-    N_THOROUGH = 6000
+    N_THOROUGH = 3000
     SHARD = 24
     ASSUMPTIONS = [
         "all-or-nothing of the walletdb.Update around each handler is property C11 (model: a failing handler leaves the state unchanged)",
@@ -97,7 +97,19 @@ class C15(Check):
 
     def gen_args(self, tier, seed):
         nn = self.N_QUICK if tier == "quick" else self.N_THOROUGH
-        return [["c15", "-n", str(nn), "-seed", str(seed), "-tier", tier]]
+        out = []
+        corpus = os.path.join(VERIF, "corpus", "C15")
+        if os.path.isdir(corpus):
+            # minimized earlier failures (S1, mutation witnesses) run first
+            p = os.path.join(WORK, "corpus_C15.jsonl")
+            os.makedirs(WORK, exist_ok=True)
+            with open(p, "w") as f:
+                for name in sorted(os.listdir(corpus)):
+                    if name.endswith(".json"):
+                        f.write(json.dumps(json.load(open(os.path.join(corpus, name)))) + "\n")
+            out.append(["c15", "-replay", p])
+        out.append(["c15", "-n", str(nn), "-seed", str(seed), "-tier", tier])
+        return out
 
     def nontrivial(self, c):
         t = set(c.get("tags", []))
@@ -164,7 +176,7 @@ Print bad.
         runs = [0]
 
         def still(inp):
-            if runs[0] >= 80:
+            if runs[0] >= 150:
                 return None
             runs[0] += 1
             with tempfile.NamedTemporaryFile("w", suffix=".jsonl", delete=False, dir=WORK) as f:
@@ -178,6 +190,9 @@ Print bad.
                 return cs[0]
             return None
 
+        def evo_of(c, i, k):
+            return c["ops"][i]["evo"] if k is None else c["ops"][i]["evos"][k]
+
         def candidates(inp):
             ops = inp["ops"]
             for i in range(len(ops) - 1, -1, -1):
@@ -189,23 +204,36 @@ Print bad.
                     c = copy.deepcopy(inp)
                     c["ops"][i]["stale"] = []
                     yield c
-                for key in ("evo",):
-                    e = op.get(key)
-                    if e and e.get("blocks"):
+                for k in range(len(op.get("evos") or []) - 1, -1, -1):
+                    if len(op["evos"]) > 1:
+                        c = copy.deepcopy(inp)
+                        del c["ops"][i]["evos"][k]
+                        yield c
+                slots = ([None] if op.get("evo") else []) + list(range(len(op.get("evos") or [])))
+                for k in slots:
+                    e = evo_of(inp, i, k)
+                    if e.get("blocks"):
                         for j in range(len(e["blocks"]) - 1, -1, -1):
                             c = copy.deepcopy(inp)
-                            del c["ops"][i][key]["blocks"][j]
+                            del evo_of(c, i, k)["blocks"][j]
+                            if evo_of(c, i, k).get("depth", 0) > len(evo_of(c, i, k)["blocks"]) and k is not None:
+                                evo_of(c, i, k)["depth"] = len(evo_of(c, i, k)["blocks"])
                             yield c
                         if any(b for b in e["blocks"]):
                             c = copy.deepcopy(inp)
-                            c["ops"][i][key]["blocks"] = [{} for _ in e["blocks"]]
+                            evo_of(c, i, k)["blocks"] = [{} for _ in e["blocks"]]
                             yield c
-                    if e and e.get("depth", 0) > 1:
+                            for j, b in enumerate(e["blocks"]):
+                                if b:
+                                    c = copy.deepcopy(inp)
+                                    evo_of(c, i, k)["blocks"][j] = {}
+                                    yield c
+                    if e.get("depth", 0) > 1:
                         c = copy.deepcopy(inp)
-                        c["ops"][i][key]["depth"] = e["depth"] - 1
+                        evo_of(c, i, k)["depth"] = e["depth"] - 1
                         yield c
         progress = True
-        while progress and runs[0] < 80:
+        while progress and runs[0] < 150:
             progress = False
             for cand in candidates(best["in"]):
                 got = still(cand)
